@@ -70,7 +70,8 @@ func GetContentSizeWithHeadOrZeroRange(url string) (int64, error) {
 	if err != nil {
 		return 0, err
 	}
-	if resp.StatusCode != http.StatusOK {
+	if resp.StatusCode != http.StatusOK || resp.ContentLength < 0 {
+		// (a 200 without a Content-Length header says nothing about the size: ContentLength is -1 then)
 		// try sending a GET request with a zero range to the server to get the file size:
 		req := &http.Request{
 			Method: "GET",
